@@ -57,7 +57,7 @@ def body(c):
     obs = vlib.read_ndjson(c.path("trace.ndjson"))
     # ---- mode V
     v = vlib.run_tlc_sliced("gql/IntrospectionModesTrace.tla", "gql/IntrospectionModesTrace.cfg", c.path("trace.ndjson"),
-                            env={"SCHEMA": SCHEMA}, slices=8, timeout=3000, keep_lines=50, xmx="3g")
+                            env={"SCHEMA": SCHEMA}, slices=(4 if c.quick else 8), timeout=3000, keep_lines=50, xmx="3g")
     c.add_tlc("V IntrospectionModesTrace", v)
     verdicts = {t[1]: (t[2], t[3]) for t in v.tagged("VERDICT")}
     if len(verdicts) != len(obs):
